@@ -1208,6 +1208,41 @@ pub fn run(ctx: &mut Ctx) {
             }
         }
     }
+    // elliptic-curve keys over curves the library knows by name but does not implement (brainpool),
+    // the RFC 8410 OIDs and arbitrary OIDs: the fingerprint is the hash of the packet as it was read
+    {
+        let oids: Vec<Vec<u8>> = vec![
+            vec![0x2B, 0x24, 0x03, 0x03, 0x02, 0x08, 0x01, 0x01, 0x07],
+            vec![0x2B, 0x24, 0x03, 0x03, 0x02, 0x08, 0x01, 0x01, 0x0B],
+            vec![0x2B, 0x24, 0x03, 0x03, 0x02, 0x08, 0x01, 0x01, 0x0D],
+            vec![0x2B, 0x65, 0x6E],
+            vec![0x2B, 0x65, 0x70],
+            vec![0x2B, 0x81, 0x04, 0x00, 0x21],
+            pattern(9, 7),
+        ];
+        for (oi, oid) in oids.iter().enumerate() {
+            for alg in [18u8, 19, 22] {
+                for (pi, plen) in [64usize, 96, 128, 32].into_iter().enumerate() {
+                    let mut pt = vec![if plen == 32 { 0x40 } else { 0x04 }];
+                    pt.extend(pattern(oi * 7 + pi, plen));
+                    let mut mat = vec![oid.len() as u8];
+                    mat.extend_from_slice(oid);
+                    mat.extend(crate::wire::mpi(&pt));
+                    if alg == 18 {
+                        mat.extend([3, 1, 8, 7]);
+                    }
+                    for ver in [4u8, 6] {
+                        let mut b = vec![ver, 0x60, 0x00, 0x00, 0x03, alg];
+                        if ver == 6 {
+                            b.extend_from_slice(&(mat.len() as u32).to_be_bytes());
+                        }
+                        b.extend_from_slice(&mat);
+                        canon.push(b);
+                    }
+                }
+            }
+        }
+    }
     for body in canon {
         if seen.bodies.contains(&body) {
             continue;
